@@ -19,7 +19,8 @@ STORED = ('io_data::readable', 'io_data::writeable', 'timer_event::h', 'io_event
 
 def lock_rule(ctx, R, group, table, allow, label):
     C = lockset.ClassLockCheck(group, table)
-    called = set(c for f in group for (_, c, _) in C.calls[f.id])
+    # a method that only constructors / destructors call is still an entry point (the destructor calling stop() does not make stop() private)
+    called = set(c for f in group if f.kind not in ('ctor', 'dtor') for (_, c, _) in C.calls[f.id])
     for f in group:
         entry = f.id not in called
         for n, (i, bf, mode, held) in enumerate(C.accesses[f.id]):
@@ -336,6 +337,129 @@ def run(ctx, extra_defs=()):
     w = [i for i in q.field_writes(st, 'thread_pool::shut_down_')]
     nt = [i for i in st.calls() if q.short_of(st.callee(i)) == 'notify_all']
     ctx.check(bool(w) and bool(nt) and q.before(st, w[0], nt[0]), R7, 'stop:flag-then-notify-all', 'workers are not woken after shutdown is flagged', st.where)
+
+    # ---- R13 the pool has workers, they take and run what is queued, and stop() joins them
+    R13 = ctx.rule('C17.R13', 'thread_pool liveness shape: the constructor starts one thread on worker() for every index 0..threads-1 of a vector sized threads; a worker leaves its loop only when shut_down_ is set, takes a job '
+                              'only from a non-empty queue, waits only when the queue is empty, invokes the job only when it holds one and on every such path; stop() joins every worker that exists; the public '
+                              'wrappers forward post / cancel / stop to the implementation')
+    tc = [f for f in tpg if f.kind == 'ctor' and len(f.params) == 1]
+    ctx.require(len(tc) == 1, 'C17.R13: thread_pool(int) constructor not found')
+    tc = tc[0]
+    nthr = q.param_by_index(tc, 0)
+    rs = [i for i in q.field_calls(tc, 'thread_pool::workers_', 'resize') if tc.ref_of(tc.args(i)[0]) == nthr] + [x['n'] for x in tc.d.get('inits', []) if x.get('field', '').endswith('thread_pool::workers_') and nthr in tc.subtree_refs(x['n'])]
+    spawn = [i for i in tc.calls() if (tc.callee(i) or '').endswith('thread::thread') and any('thread_pool::worker(' in x for x in q.deep_refs(tc, i))]
+    okc = len(rs) == 1 and len(spawn) == 1
+    whyc = 'the worker vector is not sized `threads` / no thread is started on worker()'
+    if okc:
+        lp = q.enclosing_loops(tc, spawn[0])
+        cl = q.counting_loop(tc, lp[0]) if len(lp) == 1 else None
+        store = [i for i in tc.calls() if q.short_of(tc.callee(i) or '') in ('reset', 'operator=') and tc.contains(i, spawn[0]) and any(model.strip_targs(x).endswith('thread_pool::workers_') for x in tc.subtree_refs(i))]
+        okc = cl is not None and cl['start'] == 0 and cl['step'] == 1 and cl['op'] == '<' and tc.ref_of(cl['bound']) == nthr and len(store) == 1 and cl['var'] in tc.subtree_refs(store[0]) and \
+            (rs[0] in [x['n'] for x in tc.d.get('inits', [])] or q.before(tc, rs[0], spawn[0])) and not [j for j in tc.walk(tc.N(lp[0])['body']) if tc.N(j)['k'] in ('BreakStmt', 'ContinueStmt', 'ReturnStmt', 'GotoStmt')]
+        whyc = 'not every index 0..threads-1 gets a thread on worker() stored in workers_[i]'
+    ctx.check(okc, R13, 'thread_pool(int):one-worker-thread-per-index', whyc, tc.where)
+    SD = 'thread_pool::shut_down_'
+    g_sd = wk.gate_edges(lambda atom, pol: model.strip_targs(wk.ref_of(atom) or '').endswith(SD) and pol is True)
+    wrets = [i for i in wk.all_nodes() if wk.N(i)['k'] in ('ReturnStmt', 'BreakStmt') and (wk.N(i)['k'] == 'ReturnStmt' or len(q.enclosing_loops(wk, i)) == 1)]
+    wrets = [i for i in wrets if not any(wk.N(a)['k'] == 'CXXCatchStmt' for a in wk.ancestors(i))]
+    ctx.check(bool(g_sd) and bool(wrets) and all(wk.only_through(i, g_sd) for i in wrets),
+              R13, 'worker:leaves-only-on-shutdown', 'a worker leaves its loop although the pool is not shut down (queued jobs are then never run)', wk.where)
+    # not shut down: the loop continues (no exit reachable with the shutdown edges cut)
+    reach = wk.reachable_blocks(cut_edges=g_sd)
+    ctx.check(wk.exit not in reach, R13, 'worker:keeps-serving-until-shutdown', 'the worker function can end without shut_down_ having been seen', wk.where)
+    g_nonempty = wq.gate_edges(lambda atom, pol: wq.N(atom)['k'] == 'CXXMemberCallExpr' and q.short_of(wq.callee(atom) or '') == 'empty' and model.strip_targs(wq.ref_of(wq.obj(atom)) or '').endswith('thread_pool::queue_') and pol is False) + \
+        wq.gate_edges(lambda atom, pol: wq.N(atom)['k'] == 'BinaryOperator' and any(q.short_of(wq.callee(j) or '') == 'size' and model.strip_targs(wq.ref_of(wq.obj(j)) or '').endswith('thread_pool::queue_') for j in wq.calls(atom)) and
+                      wq.const_value(wq.N(atom)['ch'][1]) == 0 and pol is (wq.N(atom).get('op') in ('!=', '>')))
+    g_empty = wq.gate_edges(lambda atom, pol: wq.N(atom)['k'] == 'CXXMemberCallExpr' and q.short_of(wq.callee(atom) or '') == 'empty' and model.strip_targs(wq.ref_of(wq.obj(atom)) or '').endswith('thread_pool::queue_') and pol is True) + \
+        wq.gate_edges(lambda atom, pol: wq.N(atom)['k'] == 'BinaryOperator' and any(q.short_of(wq.callee(j) or '') == 'size' and model.strip_targs(wq.ref_of(wq.obj(j)) or '').endswith('thread_pool::queue_') for j in wq.calls(atom)) and
+                      wq.const_value(wq.N(atom)['ch'][1]) == 0 and pol is (wq.N(atom).get('op') in ('==', '<=')))
+    takes = sw + pop + q.field_calls(wq, 'thread_pool::queue_', 'front')
+    ctx.check(bool(g_nonempty) and bool(takes) and all(wq.only_through(i, g_nonempty) for i in takes), R13, 'worker:takes-only-from-a-non-empty-queue', 'front() / pop_front() can run on an empty queue, or a queued job is never taken', wq.where)
+    waits = [i for i in wq.calls() if q.short_of(wq.callee(i) or '') in ('wait', 'wait_for', 'wait_until')]
+    ctx.check(bool(waits) and bool(g_empty) and all(wq.only_through(i, g_empty) for i in waits), R13, 'worker:waits-only-when-nothing-is-queued', 'the worker sleeps although a job is queued (it may never be woken for it)', wq.where)
+    if jobs:
+        jv = wk.ref_of(wk.N(jobs[0])['ch'][1])
+        g_job = wk.gate_edges(lambda atom, pol: (wk.ref_of(atom) == jv or (wk.N(atom)['k'] in model.CALL_KINDS and 'operator bool' in (wk.callee(atom) or '') and jv in wk.subtree_refs(atom))) and pol is True)
+        okj = bool(g_job) and wk.only_through(jobs[0], g_job)
+        if okj:
+            for (b_, s_, lab_, tag_) in g_job:
+                rb = wk.reachable_blocks(start=s_, cut_blocks=[wk.point_of(jobs[0])[0]])
+                back = [wk.point_of(L_)[0] for L_ in q.loops(wk) if wk.point_of(L_) is not None]
+                if wk.exit in rb:
+                    okj = False
+        ctx.check(okj, R13, 'worker:a-held-job-is-invoked', 'the job is invoked when the worker holds none, or a held job is dropped', wk.loc(jobs[0]))
+    jn = [i for i in st.calls() if q.short_of(st.callee(i) or '') == 'join']
+    okj = len(jn) == 1
+    if okj:
+        lp = q.enclosing_loops(st, jn[0])
+        cl = q.counting_loop(st, lp[0]) if len(lp) == 1 else None
+        onw = lambda f_, j: f_.obj(j) is not None and model.strip_targs(f_.ref_of(f_.obj(j)) or '').endswith('thread_pool::workers_')
+        if cl is not None:
+            okj = cl['start'] == 0 and cl['step'] == 1 and cl['op'] in ('<', '!=') and any(q.short_of(st.callee(j) or '') == 'size' and onw(st, j) for j in st.calls(cl['bound']))
+            lvar = cl['var']
+        else:
+            okj = len(lp) == 1 and q.whole_loop(st, lp[0], onw)
+            lv_ = [x for x in st.subtree_refs(st.N(lp[0]).get('cond', lp[0])) if x.startswith('v:')] if okj and st.N(lp[0])['k'] != 'CXXForRangeStmt' else []
+            lvar = lv_[0] if lv_ else (st.N(lp[0]).get('var') if okj else None)
+        if okj:
+            tv = st.ref_of(st.obj(jn[0])) or ([x for x in st.subtree_refs(jn[0]) if x.startswith('v:')] or [None])[0]
+            srcs = [val for (dn, val) in st.defs_of_var(tv) if val is not None] if tv else []
+            okj = bool(srcs) and all(lvar in q.deep_refs(st, v_) and (cl is None or any(model.strip_targs(x).endswith('thread_pool::workers_') for x in q.deep_refs(st, v_))) for v_ in srcs)
+            g_thr = st.gate_edges(lambda atom, pol: (st.ref_of(atom) == tv or (st.N(atom)['k'] in model.CALL_KINDS and 'operator bool' in (st.callee(atom) or '') and tv in st.subtree_refs(atom))) and pol is True)
+            okj = okj and bool(g_thr) and st.only_through(jn[0], g_thr)
+            for (b_, s_, lab_, tag_) in g_thr:
+                rb = st.reachable_blocks(start=s_, cut_blocks=[st.point_of(jn[0])[0]])
+                if st.exit in rb:
+                    okj = False
+            okj = okj and bool(w) and q.before(st, w[0], jn[0]) and not [j for j in st.walk(st.N(lp[0])['body']) if st.N(j)['k'] in ('BreakStmt', 'ContinueStmt', 'ReturnStmt', 'GotoStmt')]
+    ctx.check(okj, R13, 'stop:joins-every-existing-worker-after-flagging', 'stop() does not join workers_[i] for every i after setting shut_down_', st.where)
+    pubs = [f for f in P.fns.values() if f.brecord == 'cppcms::thread_pool' and f.body is not None and f.short in ('post', 'cancel', 'stop')]
+    ctx.require(len(pubs) == 3, 'C17.R13: cppcms::thread_pool::post / cancel / stop not found')
+    for f in sorted(pubs, key=lambda g: g.id):
+        fw = [i for i in f.calls() if f.bcallee(i) == TP + '::' + f.short]
+        okw = len(fw) == 1 and [f.ref_of(x) for x in f.args(fw[0])] == [q.param_by_index(f, k) for k in range(len(f.params))] and q.always_before_exit(f, fw)
+        if okw and f.short != 'stop':
+            rr = [i for i in f.returns() if f.ret_value(i) is not None]
+            okw = bool(rr) and all(f.strip(f.ret_value(i)) == fw[0] for i in rr) and q.always_before_exit(f, rr)
+        ctx.check(okw, R13, 'thread_pool::%s:forwards' % f.short, 'the public wrapper does not forward to (and return the result of) impl::thread_pool::%s' % f.short, f.where)
+    cls_ = q.loops(cnl)
+    oks_ = len(cls_) == 1
+    if oks_:
+        n_ = cnl.N(cls_[0])
+        onq = lambda j: cnl.obj(j) is not None and model.strip_targs(cnl.ref_of(cnl.obj(j)) or '').endswith('thread_pool::queue_')
+
+        def conj(e):
+            e = cnl.strip(e)
+            m_ = cnl.N(e)
+            if m_['k'] == 'BinaryOperator' and m_.get('op') == '&&':
+                return conj(m_['ch'][0]) + conj(m_['ch'][1])
+            return [e]
+        atoms = conj(n_['cond']) if n_.get('cond', -1) not in (None, -1) else []
+        endat = [a_ for a_ in atoms if any(q.short_of(cnl.callee(j) or '') == 'end' and onq(j) for j in cnl.calls(a_))]
+        oks_ = len(endat) == 1
+        if oks_:
+            cn_ = cnl.N(endat[0])
+            iv = [x for x in cnl.subtree_refs(endat[0]) if x.startswith('v:')]
+            vals = [v_ for x in iv for (d_, v_) in cnl.defs_of_var(x) if v_ is not None]
+            oks_ = ((cn_.get('op') in ('!=', '<')) or (cn_.get('k') == 'UnaryOperator' and cn_.get('op') == '!' and cnl.N(cnl.strip(cn_['ch'][0])).get('op') == '==')) and \
+                any(q.short_of(cnl.callee(j) or '') == 'begin' and onq(j) for v_ in vals for j in cnl.calls(v_)) and \
+                all(cnl.N(j)['k'] == 'ReturnStmt' and er and q.before(cnl, er[0], j) for j in cnl.walk(n_['body']) if cnl.N(j)['k'] in ('BreakStmt', 'ReturnStmt', 'GotoStmt', 'ContinueStmt'))
+            # any further conjunct is a "found" flag: a local that is only set after the erase
+            for a_ in atoms:
+                if a_ == endat[0]:
+                    continue
+                fv = [x for x in cnl.subtree_refs(a_) if x.startswith('v:')]
+                sets = [dn for x in fv for (dn, v_) in cnl.defs_of_var(x) if v_ is not None and cnl.contains(n_['body'], dn)]
+                oks_ = oks_ and len(fv) == 1 and not list(cnl.calls(a_)) and bool(sets) and all(er and q.before(cnl, er[0], dn) for dn in sets)
+    elif not cls_:
+        oks_ = any(q.short_of(cnl.callee(j) or '') in ('find_if', 'remove_if') for j in cnl.calls())
+    ctx.check(oks_, R13, 'cancel:searches-the-whole-queue', 'cancel does not look at every queued job (from begin() while != end(), leaving early only after the erase)', cnl.where)
+    for f in (ps, cnl):
+        rr = [i for i in f.returns() if f.ret_value(i) is not None]
+        ctx.check(bool(rr) and q.always_before_exit(f, rr), R13, '%s:result-on-every-path' % f.short, 'a path ends without a return value', f.where)
+    dts = [f for f in tpg if f.kind == 'dtor' and f.body is not None]
+    ctx.check(bool(dts) and any(f.bcallee(i) == TP + '::stop' for f in dts for i in f.calls()), R13, '~thread_pool:stops-the-workers', 'destroying the pool does not stop and join its workers', dts[0].where if dts else st.where)
+    ctx.floor(R13, 14)
 
     # ---- R8 wake after enqueue
     wake_entries = [(g, 'post#%d' % k) for k, g in enumerate(sorted(P.by_bname.get(EL + '::post', []), key=lambda g: g.id))]
